@@ -30,15 +30,41 @@ def with_aliases(seed):
     return out
 
 
+def entity_alias_item(k, seed, opt):
+    """a named comparison that drives an entity (the compiler inlines it into the entity's condition) and has
+    further names that nothing consumes: those names are results and need their anchors and labels"""
+    import facto_rich as fr
+    r = random.Random(seed)
+    st = [("in", "a", r.choice(["signal-A", "iron-plate", "signal-C"]), r.choice([7, 20, 100])),
+          ("in", "b", r.choice(["signal-B", "signal-D"]), r.choice([3, 9, 50]))]
+    cmp_ = ("cmp", r.choice(["<", ">", ">=", "<=", "==", "!="]), ("ref", r.choice(["a", "b"])), ("int", r.choice([5, 10, 50])))
+    st.append(("sig", "c", cmp_))
+    alias_first = r.random() < 0.5
+    if alias_first:
+        st.append(("sig", "shown", ("ref", "c")))
+    st.append(("place", "l", r.choice(["small-lamp", "inserter"]), ("int", 0), ("int", 12), None))
+    st.append(("enable", "l", ("ref", "c")))
+    if not alias_first:
+        st.append(("sig", "shown", ("ref", "c")))
+    if r.random() < 0.5:
+        st.append(("sig", "again", ("ref", "shown")))
+    el = fr.elaborate(st)
+    return engine.Item(k, el.flat, text=fr.text(st), entities=el.entities, opts={"optimize": opt}, c20=True,
+                       note="entity alias, " + ("optimize" if opt else "no-optimize"))
+
+
 def make_items(seed, n):
     items = []
     i = 0
     while len(items) < n:
+        opt = (len(items) % 2 == 0)
+        if len(items) % 8 in (6, 7):
+            items.append(entity_alias_item(len(items), seed * 977 + len(items), opt))
+            continue
         p = with_aliases(seed * 49979687 + i)
         i += 1
         if max(fa.unfolded_size(p)) > 300:
             continue
-        opt = (len(items) % 2 == 0)
         items.append(engine.Item(len(items), p, opts={"optimize": opt}, c20=True, note="optimize" if opt else "no-optimize"))
     return items
 
